@@ -48,8 +48,38 @@ FLIP = {"<": ">", "<=": ">=", ">": "<", ">=": "<="}
 
 # casts / copies that do not change the values the rules talk about
 TRANSPARENT_METHODS = {"astype", "copy"}
+ARRAY_METHODS_AS_FUNCS = {"sum", "argsort", "cumsum", "max", "min", "any", "all", "nonzero", "repeat", "mean", "argmax", "argmin"}
 TRANSPARENT_FUNCS = {"numpy.copy", "copy.deepcopy", "copy.copy", "numpy.asarray", "numpy.ascontiguousarray"}
 
+
+# private helpers that rules name as atoms (anchors of obligations): calls to them stay calls.  Any *other* private
+# repository function (a helper a maintainer extracted) and every nested def is substituted at its call site, so that
+# "extract helper" / "inline helper" refactorings leave the normal form unchanged.
+KNOWN_ATOMS = {
+    "_sum_by_group", "_sum_by_group_np", "_sum_by_group_numba", "_sum_by_group_sorted", "_sum_values_by_index",
+    "_connectivity", "_iteration_check", "_mode_check", "_restart_connectivity_check", "_add_fluid_to_net",
+    "_junction_reference_mask", "_deprecation_check_k", "_deprecation_check_u", "_branches_not_zero_flow", "_retrieve_data",
+    "_make_lookups", "_evaluate_multinet", "_relevant_nets", "_call_output_writer", "_add_missing_columns", "_add_sector",
+    "_rename_attributes", "_rename_columns", "_rename_controller_columns", "_rename_heat_exchanger_columns",
+    "_rename_pipe_columns", "_rename_valve_columns", "_add_multiple_branch_geodata", "_auto_ext_grid_type",
+    "_auto_ext_grid_types", "_check_branch", "_check_branches", "_check_junction_element",
+    "_check_multiple_junction_elements", "_check_std_type", "_preserve_dtypes", "_set_entries", "_set_multiple_entries",
+    "_from_list", "_from_path"}
+AUTO_INLINE_DEPTH = 4
+
+# positional parameter names (and constant defaults) of the external functions the package calls with keywords
+EXTERNAL_SIGS = {
+    "scipy.sparse.csgraph.breadth_first_order": ("csgraph", "i_start", "directed", "return_predecessors"),
+    "numpy.full": ("shape", "fill_value", "dtype"),
+    "numpy.repeat": ("a", "repeats", "axis"),
+    "numpy.isin": ("element", "test_elements"),
+    "numpy.concatenate": ("arrays", "axis"),
+    "numpy.cumsum": ("a", "axis"),
+    "numpy.sum": ("a", "axis"),
+    "numpy.argsort": ("a", "axis"),
+    "numpy.interp": ("x", "xp", "fp"),
+    "numpy.clip": ("a", "a_min", "a_max"),
+}
 
 STR_METHODS = {"startswith", "endswith", "split", "rsplit", "lower", "upper", "strip", "lstrip", "rstrip", "replace", "title",
                "capitalize", "find", "count", "isdigit", "partition"}
@@ -96,16 +126,55 @@ def mk_opn(sym, items):
         return C(v)
     if sym == "+" and any(is_const(i) and isinstance(i[1], str) for i in flat):
         # string concatenation is not commutative: keep order, fold adjacent constants
-        out = []
-        for i in flat:
-            if out and is_const(out[-1]) and is_const(i) and isinstance(out[-1][1], str) and isinstance(i[1], str):
-                out[-1] = C(out[-1][1] + i[1])
-            else:
-                out.append(i)
-        return out[0] if len(out) == 1 else ("cat", tuple(out))
+        return mk_cat(flat)
     if len(flat) == 1:
         return flat[0]
     return ("opn", sym, tuple(sorted(flat, key=key)))
+
+
+def mk_cat(parts):
+    """string built from parts (f-string, +, % formatting): nested cats are flattened, adjacent constants folded"""
+    out = []
+    for i in parts:
+        items = list(i[1]) if isinstance(i, tuple) and i and i[0] == "cat" else [i]
+        for j in items:
+            if is_const(j) and j[1] == "":
+                continue
+            if out and is_const(out[-1]) and is_const(j) and isinstance(out[-1][1], str) and isinstance(j[1], (str, int)) \
+                    and not isinstance(j[1], bool):
+                out[-1] = C(out[-1][1] + str(j[1]))
+            elif not out and is_const(j) and isinstance(j[1], int) and not isinstance(j[1], bool):
+                out.append(C(str(j[1])))
+            else:
+                out.append(j)
+    if not out:
+        return C("")
+    if len(out) == 1 and is_const(out[0]) and isinstance(out[0][1], str):
+        return out[0]
+    return ("cat", tuple(out))
+
+
+def _percent_parts(fmt, args):
+    """'a %s b %d' % (x, y) -> [a, x, b, y] (None when the format uses anything but %s / %d / %i / %%)"""
+    import re as _re
+    out, pos, k = [], 0, 0
+    for m in _re.finditer(r"%(.)", fmt):
+        out.append(C(fmt[pos:m.start()]))
+        pos = m.end()
+        ch = m.group(1)
+        if ch == "%":
+            out.append(C("%"))
+        elif ch in "sdi":
+            if k >= len(args):
+                return None
+            out.append(args[k])
+            k += 1
+        else:
+            return None
+    out.append(C(fmt[pos:]))
+    if k != len(args):
+        return None
+    return out
 
 
 def mk_not(sym, a):
@@ -167,6 +236,10 @@ class ANF:
         self._seq = 0
         self._bound = 0
         self._loop = 0
+        self.auto_inline = True
+        self._depth = 0
+        self._stack = frozenset()
+        self._localfns = {}
 
     # ------------------------------------------------------------------ driver
     def run(self):
@@ -279,7 +352,9 @@ class ANF:
         if isinstance(s, (ast.Pass, ast.Import, ast.ImportFrom, ast.Global, ast.Nonlocal, ast.Assert, ast.Delete,
                           ast.FunctionDef, ast.ClassDef, ast.Break, ast.Continue)):
             if isinstance(s, ast.FunctionDef):
-                env[s.name] = ("localfn", s.name)
+                k_ = "%s@%d" % (s.name, len(self._localfns))
+                self._localfns[k_] = s
+                env[s.name] = ("localfn", k_)
             if isinstance(s, ast.Delete):
                 for t in s.targets:
                     self.ev("delete", s, cond, loops, target=self.eval(_load(t), env, cond, loops))
@@ -551,11 +626,24 @@ class ANF:
             parts = []
             for v in e.values:
                 parts.append(ev(v.value) if isinstance(v, ast.FormattedValue) else C(v.value))
-            if all(is_const(p) for p in parts):
-                return C("".join(str(p[1]) for p in parts))
-            return ("cat", tuple(parts))
+            return mk_cat(parts)
         if isinstance(e, ast.Lambda):
-            return ("lambda", U(e))
+            a = e.args
+            if a.vararg or a.kwarg or a.kwonlyargs or a.defaults or a.posonlyargs:
+                return ("lambda", U(e))
+            # parameters are bound variables numbered in order: alpha-equivalent lambdas have equal terms
+            e2 = dict(env)
+            bs = []
+            for p_ in a.args:
+                self._bound += 1
+                e2[p_.arg] = ("b", self._bound)
+                bs.append(("b", self._bound))
+            try:
+                body = self.eval(e.body, e2, cond, loops)
+            except Unsupported:
+                return ("lambda", U(e))
+            t = _renumber(("comp", "Lambda", body, tuple(bs)))
+            return ("lambda", len(bs), t[2])
         if isinstance(e, ast.Starred):
             return ("star", ev(e.value))
         if isinstance(e, ast.NamedExpr):
@@ -597,6 +685,10 @@ class ANF:
                 return C(a[1] % (tuple(x[1] for x in b[1]) if b[0] == "tuple" else b[1]))
             except Exception:
                 pass
+        if sym == "%" and is_const(a) and isinstance(a[1], str):
+            parts = _percent_parts(a[1], list(b[1]) if b[0] == "tuple" else [b])
+            if parts is not None:
+                return mk_cat(parts)
         return ("op", sym, a, b)
 
     def compare(self, sym, a, b):
@@ -659,13 +751,34 @@ class ANF:
                         return C(recv[1].format(*[a[1] for a in args]))
                     except Exception:
                         pass
-                fn = ("attr", recv, f.attr)
+                if f.attr in ARRAY_METHODS_AS_FUNCS and recv[0] not in ("dict", "list", "tuple", "set", "c", "new"):
+                    # x.argsort() is np.argsort(x) (numpy dispatches the function to the method for non-ndarrays)
+                    fn = ("x", "numpy." + f.attr)
+                    args = [recv] + args
+                else:
+                    fn = ("attr", recv, f.attr)
                 t = ("call", fn, tuple(args), kw)
                 self.ev("call", e, cond, loops, fn=fn, term=t, args=tuple(args), kw=kw)
                 return t
         fn = ev(f)
+        if fn[0] == "localfn":
+            return self.inline_local(fn, e, args, kw, env, cond, loops)
+        args, kw = self.bind_keywords(fn, args, kw)
         if fn[0] == "x" and self.strip and fn[1] in TRANSPARENT_FUNCS and args:
             return args[0]
+        if fn[0] == "x" and fn[1] == "numpy.flatnonzero" and len(args) == 1 and not kw:
+            # positions of the True entries: the same as np.where(mask)[0] / np.nonzero(mask)[0] for the 1-d masks of this package
+            return read(self._call_term(("x", "numpy.where"), e, args, kw, cond, loops), (C(0),))
+        if fn[0] == "x" and fn[1] == "numpy.nonzero" and len(args) == 1 and not kw:
+            fn = ("x", "numpy.where")
+        if fn[0] == "x" and fn[1] in ("numpy.all", "numpy.any") and len(args) == 1 and not kw:
+            inner = _negated(args[0])
+            if inner is not None:
+                # all(~x) == not any(x), any(~x) == not all(x); x != y is ~(x == y)
+                other = ("x", "numpy.any" if fn[1] == "numpy.all" else "numpy.all")
+                return mk_not("not", self._call_term(other, e, [inner], kw, cond, loops))
+        if fn[0] == "x" and fn[1] == "numpy.divide" and len(args) == 2 and not kw:
+            return ("op", "/", args[0], args[1])
         if fn[0] == "x" and fn[1] == "builtins.len" and args and args[0][0] in ("list", "tuple"):
             return C(len(args[0][1]))
         if fn[0] == "x" and fn[1] == "builtins.len" and len(args) == 1 and args[0][0] == "upd":
@@ -682,9 +795,103 @@ class ANF:
             return C(self.options[args[1][1]])
         if fn[0] == "f" and fn[1] in self.inline:
             return self.inline_call(fn[1], e, args, kw, cond, loops)
-        t = ("call", fn, tuple(args), kw)
-        self.ev("call", e, cond, loops, fn=fn, term=t, args=tuple(args), kw=kw)
+        if fn[0] == "f" and self.auto_inline and self._auto_inlinable(fn[1]):
+            return self.inline_call(fn[1], e, args, kw, cond, loops)
+        return self._call_term(fn, e, args, kw, cond, loops)
+
+    def _call_term(self, fn, e, args, kw, cond, loops):
+        t = ("call", fn, tuple(args), tuple(kw))
+        self.ev("call", e, cond, loops, fn=fn, term=t, args=tuple(args), kw=tuple(kw))
         return t
+
+    def _auto_inlinable(self, qual):
+        """a private repository helper that no rule names as an atom: substituted at the call site"""
+        short = qual.rsplit(".", 1)[-1]
+        if not short.startswith("_") or short.startswith("__") or short in KNOWN_ATOMS:
+            return False
+        if self._depth >= AUTO_INLINE_DEPTH or qual in self._stack or qual == self.fi.qualname:
+            return False
+        try:
+            g = self.ix.func(qual)
+        except Exception:
+            return False
+        if g is None or getattr(g, "cls", None) is not None:
+            return False
+        a = g.node.args
+        if a.vararg or a.kwarg:
+            return False
+        # generators cannot be substituted
+        return not any(isinstance(n, (ast.Yield, ast.YieldFrom)) for n in ast.walk(g.node))
+
+    def bind_keywords(self, fn, args, kw):
+        """keyword arguments of a call to a known signature become positional (defaults that are constants are filled in
+        between), so `get_lookup(net, pit_type="node", lookup_type="index")` is `get_lookup(net, "node", "index")`"""
+        if not kw or any(k == "**" for k, _ in kw) or any(isinstance(a, tuple) and a and a[0] == "star" for a in args):
+            return args, kw
+        names, defaults = None, {}
+        if fn[0] == "f":
+            try:
+                g = self.ix.func(fn[1])
+            except Exception:
+                g = None
+            if g is None or not hasattr(g, "node") or not isinstance(g.node, ast.FunctionDef):
+                return args, kw
+            a = g.node.args
+            if a.vararg is not None:
+                return args, kw
+            pos = a.posonlyargs + a.args
+            names = [p_.arg for p_ in pos]
+            if getattr(g, "cls", None) is not None and names and names[0] in ("self", "cls"):
+                return args, kw
+            for p_, d in zip(reversed(pos), reversed(a.defaults)):
+                if isinstance(d, ast.Constant):
+                    defaults[p_.arg] = C(d.value)
+        elif fn[0] == "x" and fn[1] in EXTERNAL_SIGS:
+            names = list(EXTERNAL_SIGS[fn[1]])
+        if names is None:
+            return args, kw
+        kwd = dict(kw)
+        out = list(args)
+        k = len(out)
+        while k < len(names) and kwd:
+            nm = names[k]
+            if nm in kwd:
+                out.append(kwd.pop(nm))
+            elif nm in defaults and any(n2 in kwd for n2 in names[k + 1:]):
+                out.append(defaults[nm])
+            else:
+                break
+            k += 1
+        return out, tuple(sorted(kwd.items()))
+
+    def inline_local(self, fn, e, args, kw, env, cond, loops):
+        """call of a nested def: the body is evaluated in the enclosing environment (closure), parameters bound"""
+        node = self._localfns[fn[1]]
+        a = node.args
+        if a.vararg or a.kwarg or self._depth >= AUTO_INLINE_DEPTH + 2:
+            return self._call_term(fn, e, args, kw, cond, loops)
+        e2 = dict(env)
+        pos = a.posonlyargs + a.args
+        for p_, d in zip(reversed(pos), reversed(a.defaults)):
+            e2[p_.arg] = self.eval(d, env, cond, loops)
+        for p_, d in zip(a.kwonlyargs, a.kw_defaults):
+            if d is not None:
+                e2[p_.arg] = self.eval(d, env, cond, loops)
+        for p_, v in zip(pos, args):
+            e2[p_.arg] = v
+        for k_, v in kw:
+            e2[k_] = v
+        n0 = len(self.res.events)
+        self._depth += 1
+        try:
+            self.block(strip_docstring(node.body), e2, cond, loops)
+        finally:
+            self._depth -= 1
+        # stores of the closure into arrays of the enclosing scope are visible there (functional updates by name)
+        for k_, v in e2.items():
+            if k_ in env and k_ not in [p_.arg for p_ in pos] and key(v) != key(env[k_]) and isinstance(v, tuple) and v and v[0] == "upd":
+                env[k_] = v
+        return self._merge_returns(n0, cond)
 
     def inline_call(self, qual, e, args, kw, cond, loops):
         g = self.ix.func(qual)
@@ -703,9 +910,17 @@ class ANF:
             env[k] = v
         for p in params:
             env.setdefault(p, N(p))
+        sub.auto_inline = self.auto_inline
+        sub._depth = self._depth + 1
+        sub._stack = self._stack | {qual, self.fi.qualname}
+        sub._localfns = self._localfns
+        sub.adict = set(self.adict)
         n0 = len(self.res.events)
         sub.block(strip_docstring(g.node.body), env, cond, loops)
         self._seq, self._bound = sub._seq, sub._bound
+        return self._merge_returns(n0, cond)
+
+    def _merge_returns(self, n0, cond):
         rets = [x for x in self.res.events[n0:] if x.kind == "return"]
         for r in rets:
             r.kind = "inlined-return"
@@ -719,6 +934,16 @@ class ANF:
             c = extra[0][0] if len(extra) == 1 and extra[0][1] else ("path", extra)
             out = ("ite", c, r.value, out)
         return out
+
+
+def _negated(t):
+    """x when t is ~x / not x / (a != b -> a == b); None otherwise"""
+    if isinstance(t, tuple) and t:
+        if t[0] == "u" and t[1] in ("~", "not"):
+            return t[2]
+        if t[0] == "cmp" and t[1] == "!=":
+            return ("cmp", "==", t[2], t[3])
+    return None
 
 
 def _const_cols(i, j):
